@@ -198,7 +198,7 @@ def gen(seed: int, tier: str) -> dict[str, Any]:
     if proto == "udp" and rng.random() < 0.5:
         policy = {"drop": 0.1, "dup": 0.1, "delay": 0.1}
     return {"seed": seed, "tier": "S", "config": {"proto": proto, "exhaustive": exhaustive, "batch": 1,
-                                                   "reconnect_cut": reconnect_cut,
+                                                   "reconnect_cut": reconnect_cut, "oneshot_cb": rng.random() < 0.3,
                                                    # the first connection is closed by the client itself and its
                                                    # connection_lost is reported late (unflushed write buffer) - after the
                                                    # same transport object has connected again
@@ -298,7 +298,7 @@ def run(plan: dict[str, Any]) -> dict[str, Any]:
         net.tcp_listen("10.0.0.9", 3671, peer)
         delivered: list[tuple] = []
         tr = TCPTransport(("10.0.0.9", 3671))
-        tr.register_callback(lambda fr, src, t: delivered.append(key_of(fr)))
+        attach(tr, delivered)
         before = len(net.protocol_escapes)
         await tr.connect()
         await asyncio.sleep(0.002 * len(chunks) + 0.05)
@@ -315,7 +315,7 @@ def run(plan: dict[str, Any]) -> dict[str, Any]:
         net.tcp_listen("10.0.0.9", 3671, peer)
         delivered: list[tuple] = []
         tr = TCPTransport(("10.0.0.9", 3671))
-        tr.register_callback(lambda fr, src, t: delivered.append(key_of(fr)))
+        attach(tr, delivered)
         before = len(net.protocol_escapes)
         await tr.connect()
         await asyncio.sleep(0.05)
@@ -356,6 +356,20 @@ def run(plan: dict[str, Any]) -> dict[str, Any]:
                       f"{len(second)} of {len(expected)} frames; first difference at index "
                       f"{next((i for i, (a, b) in enumerate(zip(expected, second)) if a != b), min(len(expected), len(second)))}")
 
+    def attach(tr, delivered):
+        """Register the recording callback - in some runs behind a one-shot callback that unregisters itself from inside the
+        dispatch of the first frame it sees (as the device management connection does on a DisconnectRequest)."""
+        if cfg.get("oneshot_cb"):
+            holder: list[Any] = [None]
+
+            def oneshot(fr, src, t):
+                if holder[0] is not None:
+                    t.unregister_callback(holder[0])
+                    holder[0] = None
+                    R.extra_faults["callback_unregistered_itself_during_dispatch"] += 1
+            holder[0] = tr.register_callback(oneshot)
+        tr.register_callback(lambda fr, src, t: delivered.append(key_of(fr)))
+
     def cut(cuts: list[int]) -> list[bytes]:
         out = []
         prev = 0
@@ -369,7 +383,7 @@ def run(plan: dict[str, Any]) -> dict[str, Any]:
         if cfg["proto"] == "udp":
             delivered: list[tuple] = []
             tr = UDPTransport((net.local_ip, 0), ("10.0.0.9", 3671))
-            tr.register_callback(lambda fr, src, t: delivered.append(key_of(fr)))
+            attach(tr, delivered)
             await tr.connect()
             peer = net.udp_bind("10.0.0.9", 3671, lambda d, s, k: None)
             dst = tr.getsockname()
